@@ -122,7 +122,7 @@ def _validate_shard(args):
 
 
 def validate(norm_path, module, cfg, cfg_obj, tables_path, workdir, shards=16, timeout=900,
-             max_failures=20, extra_env=None):
+             max_failures=3, extra_env=None):
     """Validates every run of a normalized trace file.  Returns a dict:
     {runs, events, rejected: [{run, i, event, shard_file}], used: {dev: [runs]}}"""
     _ensure(workdir)
